@@ -145,9 +145,11 @@ def expected_drops(group_files, snap, eff, agg="doc"):
         if prio == "least-recent-status-change":
             return lambda i, g: -tkey(g, "ctime", max, min)
         if prio == "most-nested":
-            return lambda i, g: (max if agg == "doc" else min)(depth(p) for p in g)
+            # --help: "higher priority to the files nested deeper": a replica of several paths ranks by its deepest path
+            # (no alternative reading: the time keys are the only ones whose aggregation the documentation leaves open)
+            return lambda i, g: max(depth(p) for p in g)
         if prio == "least-nested":
-            return lambda i, g: -(min if agg == "doc" else max)(depth(p) for p in g)
+            return lambda i, g: -min(depth(p) for p in g)
         raise ValueError(prio)
 
     keep_n = eff.get("keep_name") or []
